@@ -38,6 +38,7 @@ var verifC19Idx struct {
 	lo, hi    uint64 // requested range
 	nodes     map[*ipldbindcode.Transaction]*verifC19Tx
 	nodeOf    []*ipldbindcode.Transaction // by transaction id
+	name      string                      // obligation id for the assertion labels
 	incl      []string
 	failQuery int // the index query for the include account with this position fails (-1: none)
 	limit     int
@@ -57,12 +58,12 @@ func verifC19GetBeforeUntilSlot(
 	until uint64,
 	fetcher func(uint64, linkedlog.OffsetAndSizeAndSlot) (*ipldbindcode.Transaction, error),
 ) (gsfa.EpochToTransactionObjects, error) {
-	verifAssert(r != nil, "C19.indexed: no multi-epoch address index handed over")
-	verifAssert(limit == verifC19Idx.limit, "C19.indexed: unexpected query limit")
-	verifAssert(until == verifC19Idx.lo, "C19.indexed: the index is not queried down to the start slot (inclusive)")
-	verifAssert(before == verifC19Idx.hi+1, "C19.indexed: the index is not queried up to the end slot (inclusive)")
+	verifAssert(r != nil, verifC19Idx.name+": no multi-epoch address index handed over")
+	verifAssert(limit == verifC19Idx.limit, verifC19Idx.name+": unexpected query limit")
+	verifAssert(until == verifC19Idx.lo, verifC19Idx.name+": the index is not queried down to the start slot (inclusive)")
+	verifAssert(before == verifC19Idx.hi+1, verifC19Idx.name+": the index is not queried up to the end slot (inclusive)")
 	last := pk[31]
-	verifAssert(pk == verifC19Key(last), "C19.indexed: the index is queried for an account that is not in the include list")
+	verifAssert(pk == verifC19Key(last), verifC19Idx.name+": the index is queried for an account that is not in the include list")
 	if fq := verifC19Idx.failQuery; fq >= 0 && solana.MustPublicKeyFromBase58(verifC19Idx.incl[fq]) == pk {
 		return nil, verifC19IdxErr
 	}
@@ -115,9 +116,16 @@ func getTransactionAndMetaFromNode(
 //	3: window "2", include [A,B], the index query for the first / second account fails
 var verifC19IdxProfiles = [][3]int{{1, 0, 0}, {2, 0, 0}, {2, 3, 0}, {2, 0, 1}}
 
-func VerifC19Indexed() {
+func VerifC19Indexed() { verifC19Idx.name = "C19.indexed"; verifC19IndexedBody(-1) }
+
+// C19.batch: scenario 1 alone (the range holds more transactions of one account than the batch limit).
+func VerifC19IndexedBatch() { verifC19Idx.name = "C19.batch"; verifC19IndexedBody(1) }
+
+func verifC19IndexedBody(scen int) {
 	verifC19Reset(verifC19Base)
-	scen := verifChoice("scenario", verifParam("scenarios", 1))
+	if scen < 0 {
+		scen = verifChoice("scenario", verifParam("scenarios", 1))
+	}
 	symVote := verifParam("sym_vote", 0) == 1
 	var tpl string
 	var p [3]int
@@ -128,7 +136,7 @@ func VerifC19Indexed() {
 		p = verifC19IdxProfiles[verifChoice("profile", verifParam("profiles", 2))]
 	case 1:
 		tpl = "12"
-		p = verifC19IdxProfiles[verifChoice("profile", 2)]
+		p = verifC19IdxProfiles[verifChoice("profile", verifParam("batch_profiles", 2))]
 	case 2:
 		tpl = []string{"1s1", "111"}[verifChoice("window", 2)]
 		p = verifC19IdxProfiles[1]
@@ -208,25 +216,25 @@ func VerifC19Indexed() {
 	sent := make([]uint64, len(verifC19.txs))
 	prev := -1
 	for _, r := range ser.sent {
-		verifAssert(r != nil && r.Transaction != nil && len(r.Transaction.Transaction) == 1, "C19.indexed: response without the archived transaction bytes")
+		verifAssert(r != nil && r.Transaction != nil && len(r.Transaction.Transaction) == 1, verifC19Idx.name+": response without the archived transaction bytes")
 		id := int(r.Transaction.Transaction[0])
-		verifAssert(id > prev, "C19.indexed: stream not in ascending (slot, position) order, or a transaction sent twice")
+		verifAssert(id > prev, verifC19Idx.name+": stream not in ascending (slot, position) order, or a transaction sent twice")
 		prev = id
 		t := verifC19.txs[id]
-		verifAssert(t.slotIx >= lo && t.slotIx <= hi, "C19.indexed: transaction outside the requested range")
-		verifAssert(len(r.Transaction.Meta) == 1 && int(r.Transaction.Meta[0]) == id|0x80, "C19.indexed: meta of another transaction")
-		verifAssert(r.Transaction.Index != nil && *r.Transaction.Index == uint64(t.pos), "C19.indexed: wrong position index")
-		verifAssert(r.Index != nil && *r.Index == uint64(t.pos), "C19.indexed: response does not carry the position of the transaction")
-		verifAssert(r.Slot == verifC19.start+uint64(t.slotIx), "C19.indexed: response does not carry the slot of the transaction")
-		verifAssert(r.BlockTime == verifC19BlockTime(verifC19.start+uint64(t.slotIx)), "C19.indexed: wrong block time")
+		verifAssert(t.slotIx >= lo && t.slotIx <= hi, verifC19Idx.name+": transaction outside the requested range")
+		verifAssert(len(r.Transaction.Meta) == 1 && int(r.Transaction.Meta[0]) == id|0x80, verifC19Idx.name+": meta of another transaction")
+		verifAssert(r.Transaction.Index != nil && *r.Transaction.Index == uint64(t.pos), verifC19Idx.name+": wrong position index")
+		verifAssert(r.Index != nil && *r.Index == uint64(t.pos), verifC19Idx.name+": response does not carry the position of the transaction")
+		verifAssert(r.Slot == verifC19.start+uint64(t.slotIx), verifC19Idx.name+": response does not carry the slot of the transaction")
+		verifAssert(r.BlockTime == verifC19BlockTime(verifC19.start+uint64(t.slotIx)), verifC19Idx.name+": wrong block time")
 		sent[id] = 1
 	}
 	if verifC19Idx.failQuery >= 0 {
-		verifAssert(err == verifC19IdxErr, "C19.indexed: a failed index query is not reported")
+		verifAssert(err == verifC19IdxErr, verifC19Idx.name+": a failed index query is not reported")
 		verifReach("end-error")
 		return
 	}
-	verifAssert(err == nil, "C19.indexed: unexpected error")
+	verifAssert(err == nil, verifC19Idx.name+": unexpected error")
 
 	// the set: first up to a uniform polarity of the closure (the include list is applied by the
 	// index query, not by the closure), then exactly
@@ -237,12 +245,12 @@ func VerifC19Indexed() {
 		eqAll &= 1 ^ d
 		neAll &= (in & d) | ((1 ^ in) & (1 ^ sent[t.id]))
 	}
-	verifAssert(eqAll|neAll == 1, "C19.indexed: the streamed set is neither the set selected by the filter nor, among the transactions mentioning an included account, its complement")
+	verifAssert(eqAll|neAll == 1, verifC19Idx.name+": the streamed set is neither the set selected by the filter nor, among the transactions mentioning an included account, its complement")
 	verifReach("checked-up-to-polarity")
 	verifKnownFinding("C19-S16-filter-polarity", len(exam) > 0)
-	verifAssert(eqAll == 1, "C19.indexed: the streamed set is not the set selected by the filter (= the set streamed by the block scan)")
+	verifAssert(eqAll == 1, verifC19Idx.name+": the streamed set is not the set selected by the filter (= the set streamed by the block scan)")
 
 	verifKnownFinding("C19-indexed-trailing-empty", len(ser.sent) > 0)
-	verifAssert(!(trailingEmpty && len(ser.sent) > 0), "C19.indexed: an empty response follows the streamed transactions")
+	verifAssert(!(trailingEmpty && len(ser.sent) > 0), verifC19Idx.name+": an empty response follows the streamed transactions")
 	verifReach("end")
 }
